@@ -54,6 +54,21 @@ class _Rename(ast.NodeTransformer):
         for n in ast.walk(node):
             if isinstance(n, (ast.FunctionDef, ast.ClassDef)) and n is not node:
                 names.discard(n.name)
+        # a nested function that binds one of the names itself (parameter or assignment) has its own variable of
+        # that name: leave those names alone altogether
+        for n in ast.walk(node):
+            if isinstance(n, (ast.FunctionDef, ast.Lambda)) and n is not node:
+                a = n.args
+                inner = set(x.arg for x in a.posonlyargs + a.args + a.kwonlyargs)
+                if a.vararg:
+                    inner.add(a.vararg.arg)
+                if a.kwarg:
+                    inner.add(a.kwarg.arg)
+                if isinstance(n, ast.FunctionDef):
+                    for m in ast.walk(n):
+                        if isinstance(m, ast.Name) and isinstance(m.ctx, (ast.Store, ast.Del)):
+                            inner.add(m.id)
+                names -= inner
         mapping = {x: x + "_rn" for x in names}
         for n in ast.walk(node):
             if isinstance(n, ast.Name) and n.id in mapping:
